@@ -58,13 +58,14 @@ def r2_tid(ck, cx):
             inc = [s for s in sides if isinstance(s, ast.BinOp) and isinstance(s.op, ast.Add) and
                    sorted([U(s.left), U(s.right)]) == ['1', 'self.tid']]
             ok = len(mask) == 1 and len(inc) == 1
-        elif isinstance(v, ast.BinOp) and isinstance(v.op, ast.Mod):
+        elif isinstance(v, ast.BinOp) and isinstance(v.op, ast.Mod) and not isinstance(v.left, ast.Constant):
             ok = cx.ce.try_ev(v.right, f.mod, tm) == 0x10000 and isinstance(v.left, ast.BinOp) and isinstance(v.left.op, ast.Add) and \
                 sorted([U(v.left.left), U(v.left.right)]) == ['1', 'self.tid']
         ck.ob('R2', f.qn, 'next id = (tid + 1) & 0xffff', ok, detail='tid-arithmetic %s' % (U(v) if v is not None else 'unset'), loc=cx.floc(f),
               message='getNextTID computes %s: outstanding ids are not distinct 16-bit values' % (U(v) if v is not None else None))
         r = ret_expr(p)
-        ck.ob('R2', f.qn, 'returns the new id', r is not None and U(r) == 'self.tid', detail='tid-return %s' % (U(r) if r is not None else None), loc=cx.floc(f))
+        same = r is not None and (U(r) == 'self.tid' or (v is not None and U(r) == U(v)))
+        ck.ob('R2', f.qn, 'returns the new id', same, detail='tid-return %s' % (U(r) if r is not None else None), loc=cx.floc(f))
 
 
 def r3_r4_handle(ck, cx, cls):
@@ -96,12 +97,10 @@ def r4_managers(ck, cx):
     d = cx.idx.cls(DICT)
     g = cx.method(d, 'getTransaction')
     ck.saw('functions', g.qn)
-    for p in cx.enum(g, d, max_depth=0):
-        annotate(p)
-        r = ret_expr(p)
-        ok = isinstance(r, ast.Call) and callee_name(r) == 'pop' and U(r.func.value) == 'self.transactions' and r.args and U(r.args[0]) == g.params[1]
-        ck.ob('R4', g.qn, 'getTransaction(tid) removes and returns transactions[tid]', ok, detail='dict-get %s' % (U(r) if r is not None else None), loc=cx.floc(g),
-              message='DictTransactionManager.getTransaction does not remove the entry: a duplicate reply fires the deferred twice')
+    from ..common import removes_on_pickup
+    ok, why = removes_on_pickup(cx, g, d)
+    ck.ob('R4', g.qn, 'getTransaction(tid) removes and returns transactions[tid]', ok, detail='dict-get %s' % why[:60], loc=cx.floc(g),
+          message='DictTransactionManager.getTransaction does not remove the entry: a duplicate reply fires the deferred twice')
     a = cx.method(d, 'addTransaction')
     oka = False
     for p in cx.enum(a, d, max_depth=0):
